@@ -32,19 +32,27 @@ def proj (evs : List Ev) : List Tok := evs.flatMap projEv
   simp [proj]
 @[simp] theorem proj_nil : proj [] = [] := rfl
 
+/-- a body-parser state the header parser can create: a length-delimited body has bytes left -/
+def PWf (p : PState) : Prop := p.type = .length → p.length ≠ 0
+
 structure PayloadLaws (cfg : Cfg) : Prop where
-  complete_stable : ∀ (p : PState) (a b rest : Bytes) (ev : List Ev),
+  complete_stable : ∀ (p : PState) (a b rest : Bytes) (ev : List Ev), PWf p →
     payloadFeed cfg p a = (.complete rest, ev) → payloadFeed cfg p (a ++ b) = (.complete (rest ++ b), ev)
-  needs_split : ∀ (p p' : PState) (a b : Bytes) (ev1 : List Ev),
+  complete_shrinks : ∀ (p : PState) (a rest : Bytes) (ev : List Ev), PWf p → a ≠ [] →
+    payloadFeed cfg p a = (.complete rest, ev) → rest.length < a.length
+  needs_wf : ∀ (p p' : PState) (a : Bytes) (ev : List Ev), PWf p →
+    payloadFeed cfg p a = (.needs p', ev) → PWf p'
+  needs_split : ∀ (p p' : PState) (a b : Bytes) (ev1 : List Ev), PWf p →
     payloadFeed cfg p a = (.needs p', ev1) → b ≠ [] →
-    ∃ ev, (payloadFeed cfg p (a ++ b)).1 = (payloadFeed cfg p' b).1 ∧
-          (payloadFeed cfg p (a ++ b)).2 = ev ∧ proj ev = proj (ev1 ++ (payloadFeed cfg p' b).2)
+    (payloadFeed cfg p (a ++ b)).1 = (payloadFeed cfg p' b).1 ∧
+    proj (payloadFeed cfg p (a ++ b)).2 = proj (ev1 ++ (payloadFeed cfg p' b).2)
 
 /-- outcomes that agree on everything observable -/
 def Equiv (o o' : FeedOut) : Prop :=
-  o.st = o'.st ∧ proj o.evs = proj o'.evs ∧ o.err = o'.err ∧ o.rest = o'.rest
+  (o.st = o'.st ∨ (o.st.failed = true ∧ o'.st.failed = true)) ∧
+  proj o.evs = proj o'.evs ∧ o.err = o'.err ∧ o.rest = o'.rest
 
-theorem Equiv.refl (o : FeedOut) : Equiv o o := ⟨rfl, rfl, rfl, rfl⟩
+theorem Equiv.refl (o : FeedOut) : Equiv o o := ⟨Or.inl rfl, rfl, rfl, rfl⟩
 
 /-! ### the accumulator is only appended to; enough fuel is enough -/
 
@@ -124,5 +132,423 @@ theorem take_append_of_le (a b : Bytes) (n : Nat) (h : n ≤ a.length) : (a ++ b
 
 theorem drop_append_of_le (a b : Bytes) (n : Nat) (h : n ≤ a.length) : (a ++ b).drop n = a.drop n ++ b := by
   rw [List.drop_append]; simp [Nat.sub_eq_zero_of_le h]
+
+end Aio.Http
+
+namespace Aio.Http
+open Aio
+
+/-! ### one iteration under extension -/
+
+theorem acceptLine_take (cfg : Cfg) (st : St) (a b : Bytes) (pos : Nat) (h : pos ≤ a.length) :
+    acceptLine cfg st ((a ++ b).take pos) = acceptLine cfg st (a.take pos) := by
+  rw [take_append_of_le a b pos h]
+
+/-- **A continuing iteration is unaffected by later bytes.** If one iteration on buffer `a`
+consumed something and goes round again with rest `a'`, then on `a ++ b` it does exactly the
+same and goes round with `a' ++ b`. -/
+theorem stepOnce_cont_append (cfg : Cfg) (urlOk : Bool → Bytes → Bool) (hl : PayloadLaws cfg)
+    (st st' : St) (a a' b : Bytes) (ev : List Ev) (hwf : ∀ p, st.payload = some p → PWf p)
+    (h : stepOnce cfg urlOk st a = .cont st' a' ev) :
+    stepOnce cfg urlOk st (a ++ b) = .cont st' (a' ++ b) ev := by
+  unfold stepOnce at h ⊢
+  cases hp : st.payload with
+  | none =>
+    simp only [hp] at h ⊢
+    by_cases hu : st.upgraded = true
+    · simp [hu] at h
+    simp only [hu] at h ⊢
+    cases hf : findSep cfg.lax a with
+    | none => simp [hf] at h
+    | some pos =>
+      have hb := findSep_bound cfg.lax a pos hf
+      have hpos : pos ≤ a.length := by omega
+      have hsl : sepLen cfg.lax ≤ a.length := by omega
+      simp only [hf, findSep_append_stable cfg.lax a b pos hf] at h ⊢
+      by_cases h0 : (pos == 0 && st.lines.isEmpty) = true
+      · simp only [h0, if_true] at h ⊢
+        injection h with h1 h2 h3
+        subst h1 h2 h3
+        rw [drop_append_of_le a b _ hsl]
+        simp
+      · simp only [h0] at h ⊢
+        by_cases hsc : st.shouldClose = true
+        · simp [hsc] at h
+        simp only [hsc] at h ⊢
+        rw [acceptLine_take cfg st a b pos hpos]
+        cases hal : acceptLine cfg st (a.take pos) with
+        | error e => simp [hal] at h
+        | ok lines =>
+          simp only [hal] at h ⊢
+          rw [drop_append_of_le a b _ hb]
+          by_cases hle : (lines.getLast?.getD []).isEmpty = true
+          · simp only [hle, if_true] at h ⊢
+            cases hob : onHeaderBlock cfg urlOk st lines with
+            | error e => simp [hob] at h
+            | ok r =>
+              obtain ⟨s1, e1, sc⟩ := r
+              simp only [hob] at h ⊢
+              injection h with h1 h2 h3
+              subst h1 h2 h3
+              rfl
+          · simp only [hle] at h ⊢
+            injection h with h1 h2 h3
+            subst h1 h2 h3
+            rfl
+  | some p =>
+    simp only [hp] at h ⊢
+    cases hpf : payloadFeed cfg p a with
+    | mk r pevs =>
+      simp only [hpf] at h
+      cases r with
+      | needs p' => simp at h
+      | err e rr =>
+        simp at h
+        split at h <;> cases h
+      | complete rest =>
+        simp at h
+        obtain ⟨h1, h2, h3⟩ := h
+        subst h1 h2 h3
+        rw [hl.complete_stable p a b rest pevs (hwf p hp) hpf]
+
+end Aio.Http
+
+namespace Aio.Http
+open Aio
+
+theorem onHeaderBlock_tail (cfg : Cfg) (urlOk : Bool → Bytes → Bool) (st st' : St) (lines : List Bytes)
+    (evs : List Ev) (sc : Bool) (h : onHeaderBlock cfg urlOk st lines = .ok (st', evs, sc)) :
+    st'.tail = st.tail := by
+  unfold onHeaderBlock at h
+  simp only [] at h
+  repeat' (split at h)
+  all_goals (first | (simp only [Except.ok.injEq, Prod.mk.injEq] at h; obtain ⟨h1, _, _⟩ := h; subst h1; rfl) | (cases h; rfl) | cases h)
+
+end Aio.Http
+
+namespace Aio.Http
+open Aio
+
+theorem st_eta (st : St) (h : st.tail = []) : { st with tail := [] } = st := by
+  cases st; simp_all
+
+def StWf (st : St) : Prop := ∀ p, st.payload = some p → PWf p
+
+/-- every body-parser state created at the end of a header block is well-formed -/
+theorem onHeaderBlock_wf (cfg : Cfg) (urlOk : Bool → Bytes → Bool) (st st' : St) (lines : List Bytes)
+    (evs : List Ev) (sc : Bool) (h : onHeaderBlock cfg urlOk st lines = .ok (st', evs, sc))
+    (hw : StWf st) : StWf st' := by
+  unfold onHeaderBlock at h
+  simp only [] at h
+  repeat' (split at h)
+  all_goals (try (simp only [Except.ok.injEq, Prod.mk.injEq] at h; obtain ⟨h1, _, _⟩ := h; subst h1))
+  all_goals (try (cases h; done))
+  all_goals (intro p hp)
+  all_goals first
+    | exact hw p hp
+    | (simp only [Option.some.injEq] at hp; subst hp; intro ht; simp_all [PWf]; try omega)
+    | (simp at hp)
+
+end Aio.Http
+
+namespace Aio.Http
+open Aio
+
+theorem sepLen_pos (lax : Bool) : 1 ≤ sepLen lax := by unfold sepLen; split <;> omega
+
+/-- what a continuing iteration preserves: the loop invariant (`tail = []`, well-formed body
+state) and progress (the rest is shorter) -/
+theorem stepOnce_cont_inv (cfg : Cfg) (urlOk : Bool → Bytes → Bool) (hl : PayloadLaws cfg)
+    (st st' : St) (a a' : Bytes) (ev : List Ev) (ha : a ≠ []) (ht : st.tail = []) (hw : StWf st)
+    (h : stepOnce cfg urlOk st a = .cont st' a' ev) :
+    st'.tail = [] ∧ StWf st' ∧ a'.length < a.length := by
+  unfold stepOnce at h
+  cases hp : st.payload with
+  | none =>
+    simp only [hp] at h
+    by_cases hu : st.upgraded = true
+    · simp [hu] at h
+    simp only [hu] at h
+    cases hf : findSep cfg.lax a with
+    | none => simp [hf] at h
+    | some pos =>
+      have hb := findSep_bound cfg.lax a pos hf
+      have hs := sepLen_pos cfg.lax
+      simp only [hf] at h
+      by_cases h0 : (pos == 0 && st.lines.isEmpty) = true
+      · simp only [h0, if_true] at h
+        simp at h
+        obtain ⟨h1, h2, _⟩ := h
+        subst h1 h2
+        refine ⟨ht, hw, ?_⟩
+        simp; omega
+      · simp only [h0] at h
+        by_cases hsc : st.shouldClose = true
+        · simp [hsc] at h
+        simp only [hsc] at h
+        cases hal : acceptLine cfg st (a.take pos) with
+        | error e => simp [hal] at h
+        | ok lines =>
+          simp only [hal] at h
+          have hlen : (a.drop (pos + sepLen cfg.lax)).length < a.length := by simp; omega
+          by_cases hle : (lines.getLast?.getD []).isEmpty = true
+          · simp only [hle, if_true] at h
+            cases hob : onHeaderBlock cfg urlOk st lines with
+            | error e => simp [hob] at h
+            | ok r =>
+              obtain ⟨s1, e1, sc⟩ := r
+              simp only [hob] at h
+              simp at h
+              obtain ⟨h1, h2, _⟩ := h
+              subst h1 h2
+              refine ⟨?_, ?_, hlen⟩
+              · simpa using (onHeaderBlock_tail cfg urlOk st s1 lines e1 sc hob).trans ht
+              · intro p hp'
+                exact onHeaderBlock_wf cfg urlOk st s1 lines e1 sc hob hw p (by simpa using hp')
+          · simp only [hle] at h
+            simp at h
+            obtain ⟨h1, h2, _⟩ := h
+            subst h1 h2
+            refine ⟨by simpa using ht, ?_, hlen⟩
+            intro p hp'; exact hw p (by simpa using hp')
+  | some p =>
+    simp only [hp] at h
+    cases hpf : payloadFeed cfg p a with
+    | mk r pevs =>
+      simp only [hpf] at h
+      cases r with
+      | needs p' => simp at h
+      | err e rr => simp at h; split at h <;> cases h
+      | complete rest =>
+        simp at h
+        obtain ⟨h1, h2, _⟩ := h
+        subst h1 h2
+        refine ⟨?_, ?_, hl.complete_shrinks p a rest pevs (hw p hp) ha hpf⟩
+        · split <;> simpa using ht
+        · intro q hq
+          split at hq <;> simp at hq
+
+end Aio.Http
+
+namespace Aio.Http
+open Aio
+
+theorem stepOnce_stop_cases (cfg : Cfg) (urlOk : Bool → Bytes → Bool) (st : St) (a : Bytes) (o : FeedOut)
+    (ha : a ≠ []) (h : stepOnce cfg urlOk st a = .stop o)
+    (he : o.err = none) (hr : o.rest = []) (hpe : ∀ e, Ev.payloadErr e ∉ o.evs) :
+    (st.payload = none ∧ o = { st := { st with tail := a }, evs := [], rest := [], err := none }) ∨
+    (∃ p p', st.payload = some p ∧ payloadFeed cfg p a = (.needs p', o.evs) ∧
+      o = { st := { st with payload := some p' }, evs := o.evs, rest := [], err := none }) := by
+  unfold stepOnce at h
+  cases hp : st.payload with
+  | none =>
+    left
+    simp only [hp] at h
+    by_cases hu : st.upgraded = true
+    · simp [hu] at h; subst h; simp at hr; exact absurd hr ha
+    simp only [hu] at h
+    cases hf : findSep cfg.lax a with
+    | some pos =>
+      simp only [hf] at h
+      by_cases h0 : (pos == 0 && st.lines.isEmpty) = true
+      · simp [h0] at h
+      simp only [h0] at h
+      by_cases hsc : st.shouldClose = true
+      · simp [hsc] at h; subst h; simp at he
+      simp only [hsc] at h
+      cases hal : acceptLine cfg st (a.take pos) with
+      | error e => simp [hal] at h; subst h; simp at he
+      | ok lines =>
+        simp only [hal] at h
+        by_cases hle : (lines.getLast?.getD []).isEmpty = true
+        · simp only [hle, if_true] at h
+          cases hob : onHeaderBlock cfg urlOk st lines with
+          | error e => simp [hob] at h; subst h; simp at he
+          | ok r => obtain ⟨s1, e1, sc⟩ := r; simp [hob] at h
+        · simp [hle] at h
+    | none =>
+      simp only [hf] at h
+      simp at h
+      subst h
+      refine ⟨rfl, ?_⟩
+      unfold partialLine at he ⊢
+      split
+      · next hc => simp [hc] at he
+      · split
+        · next hc1 hc2 => simp [hc1, hc2] at he
+        · cases st; simp_all
+  | some p =>
+    right
+    simp only [hp] at h
+    cases hpf : payloadFeed cfg p a with
+    | mk r pevs =>
+      simp only [hpf] at h
+      cases r with
+      | complete rest => simp at h
+      | needs p' =>
+        simp at h; subst h
+        exact ⟨p, p', rfl, hpf, rfl⟩
+      | err e rr =>
+        simp at h
+        split at h
+        · simp at h; subst h; simp at he
+        · simp at h; subst h
+          exact absurd (by simp) (hpe e)
+
+end Aio.Http
+
+namespace Aio.Http
+open Aio
+
+theorem feedLoop_succ (cfg : Cfg) (urlOk : Bool → Bytes → Bool) (f : Nat) (st : St) (d : Bytes)
+    (acc : List Ev) (hd : d ≠ []) :
+    feedLoop cfg urlOk (f + 1) st d acc =
+      match stepOnce cfg urlOk st d with
+      | .stop o => { o with evs := acc ++ o.evs }
+      | .cont st' d' ev =>
+        if d'.length < d.length then feedLoop cfg urlOk f st' d' (acc ++ ev)
+        else { st := { st' with tail := d' }, evs := acc ++ ev, rest := [], err := none } := by
+  have hde : d.isEmpty = false := by cases d <;> simp_all
+  rw [feedLoop]
+  simp only [hde, Bool.false_eq_true, if_false]
+  cases stepOnce cfg urlOk st d <;> rfl
+
+theorem feedLoop_nil (cfg : Cfg) (urlOk : Bool → Bytes → Bool) (f : Nat) (st : St) (acc : List Ev) :
+    feedLoop cfg urlOk (f + 1) st [] acc = { st := st, evs := acc, rest := [], err := none } := by
+  rw [feedLoop]; rfl
+
+/-- the state after a completed body -/
+def afterBody (st : St) : St :=
+  let st := { st with payload := none }
+  if st.pendingUpgrade then { st with upgraded := true, pendingUpgrade := false } else st
+
+theorem stepOnce_payload (cfg : Cfg) (urlOk : Bool → Bytes → Bool) (st : St) (p : PState) (d : Bytes)
+    (hp : st.payload = some p) :
+    stepOnce cfg urlOk st d =
+      match payloadFeed cfg p d with
+      | (.needs p', ev) => .stop { st := { st with payload := some p' }, evs := ev, rest := [], err := none }
+      | (.complete rest, ev) => .cont (afterBody st) rest ev
+      | (.err e true, ev) => .stop { st := { st with failed := true }, evs := ev ++ [.payloadErr e], rest := [], err := some e }
+      | (.err e false, ev) => .stop { st := afterBody st, evs := ev ++ [.payloadErr e], rest := [], err := none } := by
+  unfold stepOnce afterBody
+  simp only [hp]
+  rcases payloadFeed cfg p d with ⟨r, ev⟩
+  cases r with
+  | needs p' => rfl
+  | complete rest => rfl
+  | err e rr => cases rr <;> rfl
+
+/-- **Two-cut theorem.** Processing `a` and then carrying on from the saved state with
+`tail ++ b` is observably the same as processing `a ++ b` at once. -/
+theorem feedLoop_append (cfg : Cfg) (urlOk : Bool → Bytes → Bool) (hl : PayloadLaws cfg) :
+    ∀ (f1 : Nat) (st : St) (a b : Bytes) (acc : List Ev), a.length < f1 → st.tail = [] → StWf st →
+      (feedLoop cfg urlOk f1 st a acc).err = none →
+      (feedLoop cfg urlOk f1 st a acc).rest = [] →
+      (∀ e, Ev.payloadErr e ∉ (feedLoop cfg urlOk f1 st a acc).evs) →
+      ∀ f2 f3, ((feedLoop cfg urlOk f1 st a acc).st.tail ++ b).length < f2 → (a ++ b).length < f3 →
+        Equiv (feedLoop cfg urlOk f3 st (a ++ b) acc)
+              (feedLoop cfg urlOk f2 { (feedLoop cfg urlOk f1 st a acc).st with tail := [] }
+                ((feedLoop cfg urlOk f1 st a acc).st.tail ++ b) (feedLoop cfg urlOk f1 st a acc).evs) := by
+  intro f1
+  induction f1 with
+  | zero => intro st a b acc h; omega
+  | succ n ih =>
+    intro st a b acc hlen ht hw he hr hpe f2 f3 hf2 hf3
+    by_cases ha : a = []
+    · subst ha
+      have h0 := feedLoop_nil cfg urlOk n st acc
+      rw [h0] at hf2 ⊢
+      simp only [ht, List.nil_append] at hf2 ⊢
+      rw [st_eta st ht, feedLoop_fuel cfg urlOk f3 f2 st b acc (by simpa using hf3) hf2]
+      exact Equiv.refl _
+    · have hab : a ++ b ≠ [] := by cases a <;> simp_all
+      have hunf := feedLoop_succ cfg urlOk n st a acc ha
+      cases hs : stepOnce cfg urlOk st a with
+      | cont st' a' ev =>
+        obtain ⟨ht', hw', hsh⟩ := stepOnce_cont_inv cfg urlOk hl st st' a a' ev ha ht hw hs
+        have hwhole := stepOnce_cont_append cfg urlOk hl st st' a a' b ev hw hs
+        rw [hs] at hunf
+        simp only [hsh, if_true] at hunf
+        rw [hunf] at he hr hpe hf2 ⊢
+        cases f3 with
+        | zero => omega
+        | succ m =>
+          have hsh' : (a' ++ b).length < (a ++ b).length := by simp; omega
+          have hun2 := feedLoop_succ cfg urlOk m st (a ++ b) acc hab
+          rw [hwhole] at hun2
+          simp only [hsh', if_true] at hun2
+          rw [hun2]
+          exact ih st' a' b (acc ++ ev) (by omega) ht' hw' he hr hpe f2 m hf2 (by simp at hf3 hsh' ⊢; omega)
+      | stop o =>
+        rw [hs] at hunf
+        simp only [] at hunf
+        rw [hunf] at he hr hpe hf2 ⊢
+        simp only [] at he hr hpe hf2 ⊢
+        have hpe' : ∀ e, Ev.payloadErr e ∉ o.evs := by
+          intro e hm; exact hpe e (List.mem_append_right _ hm)
+        rcases stepOnce_stop_cases cfg urlOk st a o ha hs he hr hpe' with ⟨hp, ho⟩ | ⟨p, p', hp, hpf, ho⟩
+        · -- partial line kept as the tail
+          subst ho
+          simp only [List.append_nil] at hf2 ⊢
+          have e1 : ({ ({ st with tail := a } : St) with tail := [] } : St) = st := by
+            cases st; simp_all
+          rw [e1, feedLoop_fuel cfg urlOk f3 f2 st (a ++ b) acc hf3 hf2]
+          exact Equiv.refl _
+        · -- the body parser needs more input
+          have host : o.st = { st with payload := some p' } := by rw [ho]
+          have hotail : o.st.tail = [] := by rw [host]; simpa using ht
+          have e1 : ({ o.st with tail := [] } : St) = { st with payload := some p' } := by
+            rw [host]
+            cases st with
+            | mk l t u pu pl sc fl => simp only at ht; subst ht; rfl
+          rw [hotail, e1] at *
+          simp only [List.nil_append] at hf2 ⊢
+          have hwp' : PWf p' := hl.needs_wf p p' a o.evs (hw p hp) hpf
+          by_cases hb : b = []
+          · subst hb
+            cases f2 with
+            | zero => omega
+            | succ k =>
+              have h0 := feedLoop_nil cfg urlOk k { st with payload := some p' } (acc ++ o.evs)
+              rw [h0, List.append_nil, feedLoop_fuel cfg urlOk f3 (n + 1) st a acc (by simpa using hf3) hlen,
+                  feedLoop_succ cfg urlOk n st a acc ha, hs]
+              refine ⟨Or.inl host, rfl, he, hr⟩
+          · obtain ⟨hres, hproj⟩ := hl.needs_split p p' a b o.evs (hw p hp) hpf hb
+            cases f2 with
+            | zero => omega
+            | succ k =>
+            cases f3 with
+            | zero => omega
+            | succ m =>
+              have hpst : ({ st with payload := some p' } : St).payload = some p' := rfl
+              rw [feedLoop_succ cfg urlOk m st (a ++ b) acc hab, stepOnce_payload cfg urlOk st p (a ++ b) hp,
+                  feedLoop_succ cfg urlOk k _ b (acc ++ o.evs) hb, stepOnce_payload cfg urlOk _ p' b hpst]
+              cases hq : payloadFeed cfg p' b with
+              | mk r2 ev2 =>
+              cases hq' : payloadFeed cfg p (a ++ b) with
+              | mk r2' ev' =>
+                rw [hq, hq'] at hres hproj
+                simp only at hres hproj
+                subst hres
+                have hab2 : afterBody ({ st with payload := some p' } : St) = afterBody st := by
+                  unfold afterBody; cases st; simp
+                cases r2' with
+                | needs p'' =>
+                  refine ⟨Or.inl (by cases st; simp), ?_, rfl, rfl⟩
+                  simp [hproj]
+                | err e rr =>
+                  cases rr
+                  · refine ⟨Or.inl (by rw [hab2]), ?_, rfl, rfl⟩
+                    simp [hproj]
+                  · refine ⟨Or.inr ⟨rfl, rfl⟩, ?_, rfl, rfl⟩
+                    simp [hproj]
+                | complete rest =>
+                  have hsh1 : rest.length < b.length := hl.complete_shrinks p' b rest ev2 hwp' hb hq
+                  have hsh2 : rest.length < (a ++ b).length := by simp; omega
+                  simp only [hsh1, hsh2, if_true, hab2]
+                  rw [feedLoop_acc cfg urlOk m _ rest (acc ++ ev'), feedLoop_acc cfg urlOk k _ rest (acc ++ o.evs ++ ev2),
+                      feedLoop_fuel cfg urlOk m k _ rest [] (by simp at hf3; omega) (by simp at hf2; omega)]
+                  refine ⟨Or.inl rfl, ?_, rfl, rfl⟩
+                  simp [hproj]
 
 end Aio.Http
